@@ -134,6 +134,21 @@ pub enum InvalidSchemaError {
 
     #[error("Multiple types or intefaces with the name \"{0}\".")]
     DuplicateTypeOrInterfaceDefinition(String),
+
+    #[error("The schema does not contain a \"schema {{ ... }}\" definition.")]
+    MissingSchemaDefinition,
+
+    #[error("The schema contains more than one \"schema {{ ... }}\" definition.")]
+    DuplicateSchemaDefinition,
+
+    #[error("The \"schema {{ ... }}\" definition does not declare a query type.")]
+    MissingQueryType,
+
+    #[error("The schema declares \"{0}\" as its query type, but that type is not defined.")]
+    QueryTypeNotDefined(String),
+
+    #[error("The schema declares \"{0}\" as its query type, but it is not an object type.")]
+    QueryTypeNotObjectType(String),
 }
 
 impl From<Vec<InvalidSchemaError>> for InvalidSchemaError {
